@@ -260,7 +260,21 @@ func c37GenBlowup(t *rapid.T) string {
 	return sb.String()
 }
 
+// c37GenPattern never yields an escaped '/' (outside the generated domain, see
+// props.d/C37.py assumptions): damage to a pattern can leave a '\\' in front of
+// a '/', which is then spelled as a plain '/'.
 func c37GenPattern(t *rapid.T) string {
+	var sb strings.Builder
+	for _, tk := range c37Tokens(c37GenPattern0(t)) {
+		if tk == `\/` {
+			tk = "/"
+		}
+		sb.WriteString(tk)
+	}
+	return sb.String()
+}
+
+func c37GenPattern0(t *rapid.T) string {
 	k := rapid.IntRange(0, 99).Draw(t, "family")
 	switch {
 	case k < 81:
